@@ -216,8 +216,12 @@ func C08(x *Idx) []V {
 				}
 			}
 		}
+		// the new instance waits for the process's dependencies again and may be skipped there (C01 judges that)
+		skipped := x.has(c.SeqCall, end, func(e world.Event) bool {
+			return e.Kind == world.EvState && e.Proc == p && e.Text == "Skipped"
+		}) >= 0
 		// policy relaunches of the new instance may add to the count; none at all is the defect
-		if n == 0 && cut < 0 {
+		if n == 0 && cut < 0 && !skipped {
 			out = append(out, V{"C08", "restart-lost", f("restart of running %s returned nil (call seq %d, return seq %d) and its old instance exited at seq %d, but no new instance was ever launched", p, c.SeqCall, c.SeqRet, old.Exit)})
 		}
 	}
@@ -344,6 +348,9 @@ func C08(x *Idx) []V {
 				if sp != nil && (sp.Disabled || sp.Foreground) && statusBefore == "" {
 					active = false
 				}
+			}
+			if !active && PendingInstanceAt(x.Ev, p, a.SeqBefore, scheduled(sp)) {
+				active = true // a started instance waits for its dependencies under the stale status of its predecessor
 			}
 			if active {
 				if liveBefore != nil && call.Err == "" {
